@@ -1000,6 +1000,13 @@ func (rt *Rt) applyStep(parent *zerolog.Logger, st Step) (zerolog.Logger, *RecWr
 		return parent.Hook(hs...), nil
 	case "level":
 		return parent.Level(zerolog.Level(st.Level)), nil
+	case "viactx":
+		base := context.Background()
+		if st.N == 1 {
+			other := zerolog.New(io.Discard).With().Str("other", "logger").Logger()
+			base = other.WithContext(base)
+		}
+		return *zerolog.Ctx(parent.WithContext(base)), nil
 	case "sample":
 		return parent.Sample(mkSampler(st)), nil
 	case "output":
